@@ -399,8 +399,25 @@ func routeForwardRun(w *World) {
 	var calls []backendCall
 	var answered []proto.Message
 	script := &backendScript{fill: p}
-	mkClient := func(n string) any {
+	mkFake := func(n string) any {
 		return e.NewClient(&fakeConn{name: n, calls: &calls, script: script, sent: &answered})
+	}
+	// In one run of four the clients the router knows are not the backends themselves but wrapped servers: in-process
+	// connections (pkg/wrap, as the generated WrapApi functions build them) to a second router of the same service, which
+	// knows the scripted backends under the same names. Everything said about pass-through then holds across that hop
+	// as well, whichever way the hop's handler goroutine and the forwarding router interleave.
+	hop := t.Flag(1, 4)
+	var hopConn grpc.ClientConnInterface
+	if hop {
+		innerSrv, _ := e.NewRouter(router.WithFactory(func(n string) (any, error) { return mkFake(n), nil }))
+		_, hopConn = e.Wrap(innerSrv)
+		w.Fault("wrapped-hop")
+	}
+	mkClient := func(n string) any {
+		if hop {
+			return e.NewClient(hopConn)
+		}
+		return mkFake(n)
 	}
 	factoryCalls, fallbackCalls := 0, 0
 	var opts []router.Option
@@ -454,7 +471,7 @@ func routeForwardRun(w *World) {
 	defer cancel()
 	var reqSent proto.Message
 	desc := fmt.Sprintf("%s.%s", e.Pkg, e.Prefix)
-	key := func() map[string]any { return map[string]any{"router": desc} }
+	key := func() map[string]any { return map[string]any{"router": desc, "wrapped_hop": hop} }
 
 	if mi < nm {
 		md := e.Desc.Methods[mi]
